@@ -1,7 +1,165 @@
+(* C10 — pollers report exactly the registered-and-ready descriptors; Select, Poll and EPoll agree.
+   Only statements here; proofs live in Proofs/PollerP.v.  The model (Model/Poller.v) is the model of the
+   REPAIRED Poll._process (fixes/C10_poll_closed_descriptor.patch).
+
+   Reading guide.  [reach k s]: s is reachable from the empty poller of kind k by any history of
+   Open / Close / AddR / AddW / RemR / RemW / Discard / Tick steps that do not raise, respecting the API precondition
+   [pre] (a role is added only when it is not registered already) and, for Tick, the kernel assumption [order_ok]
+   (poll/epoll report each number of the interest table at most once, in any order).
+   [registered s o] = o is in _read or _write (isReading / isWriting).  [target s o] = getTarget(o). *)
 From Coq Require Import List Arith Bool.
 From Circ Require Import Model.Poller Proofs.PollerP.
 Import ListNotations.
 
-Theorem C10_init : rd init = [] /\ wr init = [].
-Proof. exact init_empty. Qed.
-Print Assumptions C10_init.
+(* ---- invariant: the kernel interest table mirrors list membership, _map = registered objects by current number *)
+Theorem C10_mirror : forall k s, k <> KSelect -> reach k s ->
+  (forall o f, fds s o = Some f -> registered s o -> kreg s f = Some (mem o (rd s), mem o (wr s)) /\ pmap s f = Some o) /\
+  (forall o f m, fds s o = Some f -> pmap s f = Some o -> kreg s f = Some m -> m = (mem o (rd s), mem o (wr s)) /\ registered s o) /\
+  (forall o f, fds s o = Some f -> ~ registered s o -> pmap s f = Some o -> kreg s f = None).
+Proof. exact mirror. Qed.
+Print Assumptions C10_mirror.
+
+(* epoll: every kernel entry belongs to an open registered object with exactly that interest *)
+Theorem C10_mirror_epoll : forall s f m, reach KEPoll s -> kreg s f = Some m ->
+  exists o, fds s o = Some f /\ registered s o /\ m = (mem o (rd s), mem o (wr s)).
+Proof. exact mirror_epoll. Qed.
+Print Assumptions C10_mirror_epoll.
+
+(* ---- registrations follow the set model; the target is the registering component's channel *)
+Theorem C10_registration : forall k s x s' e, step k s x = Ok s' e ->
+  match x with
+  | AddR c o => rd s' = rd s ++ [o] /\ wr s' = wr s
+  | AddW c o => rd s' = rd s /\ wr s' = wr s ++ [o]
+  | RemR o => rd s' = remove1 o (rd s) /\ wr s' = wr s
+  | RemW o => rd s' = rd s /\ wr s' = remove1 o (wr s)
+  | Discard o => rd s' = remove1 o (rd s) /\ wr s' = remove1 o (wr s)
+  | Open _ _ | Close _ => rd s' = rd s /\ wr s' = wr s
+  | Tick _ _ => (forall o, In o (rd s') -> In o (rd s)) /\ (forall o, In o (wr s') -> In o (wr s))
+  end.
+Proof. exact step_lists. Qed.
+Print Assumptions C10_registration.
+
+Theorem C10_target : forall k s x s' e, step k s x = Ok s' e ->
+  match x with
+  | AddR c o | AddW c o => tg s' o = Some c /\ forall o', o' <> o -> tg s' o' = tg s o'
+  | RemR o => (In o (wr s) -> tg s' o = tg s o) /\ forall o', o' <> o -> tg s' o' = tg s o'
+  | RemW o => (In o (rd s) -> tg s' o = tg s o) /\ forall o', o' <> o -> tg s' o' = tg s o'
+  | Discard o => forall o', o' <> o -> tg s' o' = tg s o'
+  | Open _ _ | Close _ => tg s' = tg s
+  | Tick _ _ => True
+  end.
+Proof. exact step_target. Qed.
+Print Assumptions C10_target.
+
+Theorem C10_discard_unregisters : forall k s o s' e, reach k s -> step k s (Discard o) = Ok s' e -> ~ registered s' o.
+Proof. exact discard_unregisters. Qed.
+Print Assumptions C10_discard_unregisters.
+
+(* ---- one iteration emits read(o) / write(o) iff registered and ready, addressed to the target *)
+Theorem C10_emit_select_read : forall s st o c,
+  In (ERead o c) (snd (select_tick s st)) <->
+  clean s /\ In o (rd s) /\ (exists f, fds s o = Some f /\ sr (st f) = true) /\ c = target s o.
+Proof. exact select_read. Qed.
+Print Assumptions C10_emit_select_read.
+
+Theorem C10_emit_select_write : forall s st o c,
+  In (EWrite o c) (snd (select_tick s st)) <->
+  clean s /\ In o (wr s) /\ (exists f, fds s o = Some f /\ sw (st f) = true) /\ c = target s o.
+Proof. exact select_write. Qed.
+Print Assumptions C10_emit_select_write.
+
+(* Select meeting a closed descriptor: the iteration reports nothing, drops exactly the closed descriptors,
+   and the next iteration is covered by the two theorems above *)
+Theorem C10_select_preen : forall s st, ~ clean s ->
+  snd (select_tick s st) = [] /\ clean (fst (select_tick s st)) /\
+  (forall o, closed s o = false -> (In o (rd (fst (select_tick s st))) <-> In o (rd s)) /\
+                                   (In o (wr (fst (select_tick s st))) <-> In o (wr s))).
+Proof. exact select_preen_clean. Qed.
+Print Assumptions C10_select_preen.
+
+Theorem C10_emit_poll_read : forall k s st order o c, k <> KSelect -> reach k s -> order_ok s order ->
+  (In (ERead o c) (snd (tick k s st order)) <->
+   In o (rd s) /\ (exists f, fds s o = Some f /\ pin (st f) = true) /\ c = target s o).
+Proof. intros k s st order o c Hk Hr. apply poll_read; [exact Hk | apply reach_Inv; exact Hr]. Qed.
+Print Assumptions C10_emit_poll_read.
+
+(* a write event is suppressed exactly when the kernel reports hang-up / error for the number without
+   readable data for a registered reader: then _disconnect is emitted instead (next theorem) *)
+Theorem C10_emit_poll_write : forall k s st order o c, k <> KSelect -> reach k s -> order_ok s order ->
+  (In (EWrite o c) (snd (tick k s st order)) <->
+   In o (wr s) /\ (exists f, fds s o = Some f /\ pout (st f) = true /\ hang_only s st o f = false) /\ c = target s o).
+Proof. intros k s st order o c Hk Hr. apply poll_write; [exact Hk | apply reach_Inv; exact Hr]. Qed.
+Print Assumptions C10_emit_poll_write.
+
+Theorem C10_emit_poll_disconnect : forall k s st order o c, k <> KSelect -> reach k s -> order_ok s order ->
+  In (EDisc o c) (snd (tick k s st order)) ->
+  registered s o /\ c = target s o /\
+  (fds s o = None \/ exists f, fds s o = Some f /\ hang_only s st o f = true).
+Proof. intros k s st order o c Hk Hr. apply poll_disc; [exact Hk | apply reach_Inv; exact Hr]. Qed.
+Print Assumptions C10_emit_poll_disconnect.
+
+(* ---- no ghost events, for every continuation of the history (number reuse included: Open is unconstrained
+        except that the number is not open) *)
+Theorem C10_no_ghost_unregistered : forall k h s tr oc sf o,
+  reach k s -> run_pre k s h -> run k s h = (tr, oc, sf) ->
+  ~ registered s o -> (forall x, In x h -> ~ adds o x) ->
+  forall s' evs e, In (s', evs) tr -> In e evs -> ev_obj e <> o.
+Proof. exact no_ghost_unregistered. Qed.
+Print Assumptions C10_no_ghost_unregistered.
+
+Theorem C10_no_ghost_closed : forall k h s tr oc sf o,
+  reach k s -> run_pre k s h -> run k s h = (tr, oc, sf) ->
+  fds s o = None -> born s o <> None ->
+  forall s' evs e, In (s', evs) tr -> In e evs -> is_rw e -> ev_obj e <> o.
+Proof. exact no_ghost_closed. Qed.
+Print Assumptions C10_no_ghost_closed.
+
+Theorem C10_close_closes : forall k s o s' e, reach k s -> step k s (Close o) = Ok s' e -> fds s' o = None /\ born s' o <> None.
+Proof. exact close_closes. Qed.
+Print Assumptions C10_close_closes.
+
+(* ---- the three pollers agree: a Select state and a Poll / EPoll state with the same registrations emit the same
+        events in an iteration, provided no registered descriptor is closed and none is in hang-up / error state *)
+Theorem C10_agree : forall k s1 s2 st order e,
+  k <> KSelect -> reach KSelect s1 -> reach k s2 -> order_ok s2 order ->
+  (forall o, In o (rd s1) <-> In o (rd s2)) -> (forall o, In o (wr s1) <-> In o (wr s2)) ->
+  (forall o, tg s1 o = tg s2 o) -> (forall o, fds s1 o = fds s2 o) ->
+  clean s1 -> (forall o f, registered s1 o -> fds s1 o = Some f -> plain (st f)) ->
+  (In e (snd (tick KSelect s1 st order)) <-> In e (snd (tick k s2 st order))).
+Proof.
+  intros k s1 s2 st order e Hk H1 H2. apply agree_tick; [exact Hk | apply reach_Inv; exact H1 | apply reach_Inv; exact H2].
+Qed.
+Print Assumptions C10_agree.
+
+(* ---- non-vacuity *)
+Definition rdy : status := {| pin := true; pout := true; phup := false; perr := false; sr := true; sw := true |}.
+
+(* close without discard, number reused by an unregistered descriptor that is readable:
+   the repaired Poll tells the owner once (_disconnect) and never reports o1 again; epoll and select stay silent *)
+Definition witness : list op :=
+  [Open 1 0; AddR 1 1; Tick (fun _ => rdy) [0]; Close 1; Open 2 0; Tick (fun _ => rdy) [0]; Tick (fun _ => rdy) [0]].
+Example C10_ex_poll_reuse :
+  map snd (fst (fst (run KPoll init witness))) = [[ERead 1 1]; [EDisc 1 1]; []].
+Proof. vm_compute. reflexivity. Qed.
+Example C10_ex_epoll_reuse :
+  map snd (fst (fst (run KEPoll init witness))) = [[ERead 1 1]; []; []].
+Proof. vm_compute. reflexivity. Qed.
+Example C10_ex_select_reuse :
+  map snd (fst (fst (run KSelect init witness))) = [[ERead 1 1]; []; []].
+Proof. vm_compute. reflexivity. Qed.
+
+(* remove one role while the other stays; both owners' channel kept *)
+Example C10_ex_roles :
+  map snd (fst (fst (run KPoll init [Open 1 0; AddR 2 1; AddW 2 1; Tick (fun _ => rdy) [0]; RemR 1; Tick (fun _ => rdy) [0]])))
+  = [[ERead 1 2; EWrite 1 2]; [EWrite 1 2]].
+Proof. vm_compute. reflexivity. Qed.
+
+(* a reachable state satisfying the hypotheses of the emission theorems *)
+Example C10_ex_reach : exists s, reach KPoll s /\ In 1 (rd s) /\ fds s 1 = Some 0 /\ order_ok s [0] /\ kreg s 0 = Some (true, false).
+Proof.
+  eexists. split.
+  - eapply (reach_step _ _ (AddR 1 1)); [eapply (reach_step _ init (Open 1 0)); [apply reach_init | exact I | reflexivity] | simpl; intros [] | reflexivity].
+  - simpl. repeat split; auto.
+    + constructor; [intros [] | constructor].
+    + intros f Hf. unfold upd in Hf. simpl in Hf. destruct f; [left; reflexivity | simpl in Hf; congruence].
+Qed.
